@@ -30,6 +30,8 @@ func main() {
 		os.Exit(fw.CheckMain(self, os.Args[2], os.Args[3]))
 	case "replay":
 		os.Exit(fw.ReplayMain(self, os.Args[2], os.Args[3]))
+	case "c16child":
+		props.C16ChildMain(os.Args[2:])
 	case "c02child":
 		props.C02ChildMain(os.Args[2:])
 	case "list":
